@@ -76,3 +76,24 @@ def classify(pid, case, impl_res, bad):
         except Exception:  # noqa: BLE001
             continue
     return None
+
+
+def _absent_labels(case):
+    labs = {I.unf(x) for x in case["labels"] if x != "nan"}
+    return [e for e in (case.get("expected") or []) if e not in labs]
+
+
+@pred("KF01-explicit-mincount0-absent-label")
+def _kf01(case, impl_res, bad):
+    if case.get("min_count") != 0 or case.get("fill_value") is None or not case.get("expected"):
+        return False
+    absent = set(_absent_labels(case))
+    return bool(absent) and all(g in absent for g, _, _ in bad)
+
+
+def in_known_cell(case):
+    """cells for which the Coq model is not evaluated because a listed finding changes the code's behaviour there"""
+    if active("KF01-explicit-mincount0-absent-label") and case.get("min_count") == 0 and case.get("fill_value") is not None \
+            and case.get("expected") and _absent_labels(case):
+        return True
+    return False
